@@ -54,7 +54,9 @@ CONSTANTS
   Pres,        \* numbers of environment operations allowed before the client starts ({MaxOps} = no restriction;
                \* smaller values make -simulate place more operations inside the protocol)
   N0s,         \* numbers of keys already published when the behaviour starts (keys 1..n0, one publish each)
-  Contig       \* FALSE = stream reads as coded; TRUE = with the continuity check (proposed repair)
+  Contig,      \* FALSE = stream reads as coded; TRUE = with the continuity check (proposed repair)
+  DropStale    \* FALSE = as coded; TRUE = buffered publications at or before the transition's position are dropped
+               \* (proposed repair for brokers with a PUB/SUB lag of more than one delivery)
 
 Keys == 1..NK
 ErrUnrecoverable == 112
@@ -381,7 +383,8 @@ TransFinish ==
               THEN Rollback /\ Emit(ErrFrame)
               ELSE LET rec == [i \in 1..Len(rd.pubs) |-> [off |-> rd.pubs[i].off, f |-> FALSE, key |-> rd.pubs[i].key,
                                                           id |-> rd.pubs[i].id, rem |-> rd.pubs[i].rem]]
-                       m == MergeImpl(rec, buf)
+                       bufk == IF DropStale THEN SelectSeq(buf, LAMBDA x : x.off > tr.since.off) ELSE buf
+                       m == MergeImpl(rec, bufk)
                        last == IF m.list = <<>> THEN 0 ELSE m.list[Len(m.list)].off
                        latest == Max2(Max2(rd.pos.off, m.max), last)
                    IN IF ~m.ok
